@@ -32,7 +32,20 @@ KINDS = {'metric': ['StateEventService/EpisodicMetricReport'], 'alert': ['StateE
          'context': ['ContextService/EpisodicContextReport'], 'waveform': ['WaveformService/WaveformStream'],
          'descr': ['DescriptionEventService/DescriptionModificationReport', 'StateEventService/EpisodicMetricReport']}
 BOGUS = ['wrong', 'none', 'extra', 'other_service', 'upper']
-OUT_LIT = {'ok': 'OOk', 'refuse': 'ORefuse', 'timeout': 'OTimeout'}
+OUT_LIT = {'ok': 'OOk', 'http': 'OHttp', 'fault': 'OHttp', 'refuse': 'ORefuse', 'timeout': 'OTimeout', 'reset': 'OReset',
+           'ctimeout': 'OConnTimeout', 'garbage': 'OGarbage'}
+# injected delivery outcomes: every failure kind the send paths distinguish (harness/impl/gen_eventing_clauses.py lists the
+# except clauses; harness/impl/c08_impl.py raises, per kind, what the sync SoapClient / aiohttp would raise)
+FAIL_KINDS = [['http', 400], ['http', 404], ['http', 500], ['http', 503], ['fault', 500], ['fault', 400], 'refuse', 'timeout',
+              'reset', 'ctimeout', 'garbage']
+
+
+def kind_of(o):
+    return o[0] if isinstance(o, list) else o
+
+
+def gen_outs(rng, nsinks, pfail):
+    return [rng.choice(FAIL_KINDS) if rng.random() < pfail else 'ok' for _ in range(nsinks)]
 BAD = 'RSub (-1) (-1)'
 
 
@@ -78,8 +91,7 @@ def gen_case(rng, actions, max_ops, stream):
         return v * 125 + rng.choice([0, 0, 1, 3, 5, 7, 37, 62, 124])      # milliseconds, mostly off the grid
 
     def outs():
-        return [rng.choices(['ok', ['http', rng.choice([400, 404, 500, 503])], 'refuse', 'timeout'],
-                            [74, 9, 8, 9])[0] for _ in range(c['nsinks'])]
+        return gen_outs(rng, c['nsinks'], 0.27)
 
     def filt():
         r = rng.random()
@@ -196,8 +208,7 @@ def gen_fan_case(rng, actions, max_ops):
     max_err = c['max_err'] or 1
 
     def outs(pfail=0.2):
-        return [rng.choices(['ok', ['http', rng.choice([404, 500, 503])], 'refuse', 'timeout'],
-                            [1 - pfail, pfail / 3, pfail / 3, pfail / 3])[0] for _ in range(c['nsinks'])]
+        return gen_outs(rng, c['nsinks'], pfail)
 
     def mk_sub(must=None):
         f = [['a', a] for a in hot_acts if rng.random() < 0.85 or a == must]
@@ -351,7 +362,7 @@ def lit_ident(i):
 
 
 def lit_outs(outs):
-    return '[' + '; '.join('OHttp' if isinstance(o, list) else OUT_LIT[o] for o in outs) + ']'
+    return '[' + '; '.join(OUT_LIT[kind_of(o)] for o in outs) + ']'
 
 
 def lit_op(op, a, actions):
@@ -490,7 +501,7 @@ def lit_entry(e, actions):
             ms.append(f'End {z(m[1])} {z(m[2])} {coqlit(bool(m[3]))}')
     views = [f'({z(k)}, {z(cs)}, {z(er)}, {coqlit(bool(u))}, {coqlit(bool(cl))}, {coqlit(bool(v))})'
              for k, cs, er, u, cl, v in e['table']]
-    pool = ['None' if p is None else f'(Some ([{"; ".join(z(u) for u in p[0])}], {coqlit(bool(p[1]))}))' for p in e['pool']]
+    pool = ['None' if p is None else f'(Some ([{"; ".join(z(u) for u in p[0])}], {z(int(p[1]))}))' for p in e['pool']]
     return f'({lit_resp(e["resp"])}, [{"; ".join(ms)}], [{"; ".join(views)}], [{"; ".join(pool)}])'
 
 
@@ -545,6 +556,34 @@ def oracle(case, trace, actions, consts):
             return None
         return rem > 0
 
+    def settle(s, h, outs):
+        """the exchange of hand-off h ended: a delivery has failed iff the injected outcome for the destination is a
+        failure of ANY kind, or the transport client reported one (e.g. it refuses to reconnect after an earlier
+        connection error) - not: iff the implementation counted it"""
+        sink = h['m'][3]
+        inj = kind_of(outs[sink]) if isinstance(sink, int) and 0 <= sink < len(outs) else 'ok'
+        if inj == 'ok' and h['ok']:
+            s['fails'] = 0
+            return
+        s['fails'] += 1
+        if h['ok']:
+            s['uncounted'] = inj          # the transport client reported success
+        if h['ok'] or s.get('lost') is None:
+            # remember the first failure kind: when the subscription is served although it is over the limit, the
+            # report names the kind that was not counted
+            s['lost'] = inj if inj != 'ok' else 'client-refuses-to-connect'
+
+    def failed_how(s):
+        if s.get('uncounted'):
+            return f'failed:{s["uncounted"]}-taken-for-delivered'
+        return 'failed'
+
+    def describe(s, why):
+        if why.startswith('failed'):
+            return (f'{why} ({s["fails"]} consecutive failed deliveries, limit {max_err}, first failure kind '
+                    f'{s.get("lost")})')
+        return why
+
     def why_dead(s):
         if s['ended']:
             return 'ended'
@@ -553,7 +592,7 @@ def oracle(case, trace, actions, consts):
         if s['dead']:
             return 'unknown'
         if s['fails'] >= max_err:
-            return 'failed'
+            return failed_how(s)
         return 'expired'
 
     def judge(n, op, a, e, prev):
@@ -562,6 +601,10 @@ def oracle(case, trace, actions, consts):
         r = e['resp']
         kind = op[0]
         if r[0] == 'crash':
+            if kind in ('report', 'freport') and any(kind_of(o) == 'garbage' for o in op[2]) and 'XMLSyntaxError' in str(r[1]):
+                return (n, 'delivery', 'aborted-by-bad-answer',
+                        f'{kind}: a subscriber answered 2xx with a body that is not XML; the exception left send_to_subscribers '
+                        f'({r[1][:80]}), handed only to {[h["m"][1] for h in e["handed"]]}')
             return n, 'crash', kind, f'{kind}: {r[1]}'
         if kind == 'freport':
             return judge_fan(n, op, a, e)
@@ -668,12 +711,12 @@ def oracle(case, trace, actions, consts):
                 s = subs[k]
                 why = why_dead(s) if alive(s) is False else 'filter'
                 return (n, 'delivery', f'extra:{why}',
-                        f'report {a.rsplit("/", 1)[-1]} handed to subscription {k} which is {why}')
+                        f'report {a.rsplit("/", 1)[-1]} handed to subscription {k} which is {describe(s, why)}')
             for k in sorted(want - set(got) - skip):
                 return n, 'delivery', 'missing:alive', f'report {a.rsplit("/", 1)[-1]} not handed to live matching subscription {k}'
             for h in e['handed']:
                 s = subs[h['m'][1]]
-                s['fails'] = 0 if h['ok'] else s['fails'] + 1
+                settle(s, h, op[2])
         elif kind == 'stop':
             amb = []
             want = {k for k, s in enumerate(subs) if alive(s, amb)} if op[1] else set()
@@ -761,7 +804,7 @@ def oracle(case, trace, actions, consts):
             if not wants(k):
                 why = why_dead(s) if alive(s) is False else 'filter'
                 return (n, 'delivery', f'extra:{why}',
-                        f'fan-out of {short}, hand-off {i}: handed to subscription {k} which is {why} at that moment '
+                        f'fan-out of {short}, hand-off {i}: handed to subscription {k} which is {describe(s, why)} at that moment '
                         f'(operations performed during earlier deliveries of the same report: '
                         f'{[x["op"][:2] for e0 in fan["events"][:i] for x in e0["inner"]]})')
             seen.append(k)
@@ -776,7 +819,7 @@ def oracle(case, trace, actions, consts):
                 if bad:
                     return bad[0], bad[1], bad[2], f'during hand-off {i} of a fan-out: {bad[3]}'
                 not_wanted_once.update(j for j in range(n_list) if not wants(j))
-            s['fails'] = 0 if ev['ok'] else s['fails'] + 1        # the exchange ends
+            settle(s, ev, op[2])                                   # the exchange ends
             not_wanted_once.update(j for j in range(n_list) if not wants(j))
         if exact:
             bad = skipped_until(None)
@@ -930,6 +973,9 @@ def consts_from_generated():
             'maxd_ticks': g('DEFAULT_MAX_SUBSCR_DURATION_TICKS'), 'grace_ticks': g('HOUSEKEEPING_GRACE_TICKS')}
 
 
+RAISED = {}
+
+
 def run_impl(ctx, cases, workers=4):
     chunks = [cases[i::workers] for i in range(workers)]
 
@@ -942,6 +988,8 @@ def run_impl(ctx, cases, workers=4):
             return None, r
     traces = [None] * len(cases)
     for w, r in enumerate(res):
+        for key, cnt in (r.get('raised') or {}).items():
+            RAISED[key] = RAISED.get(key, 0) + cnt
         for j, tr in enumerate(r['traces']):
             traces[w + j * workers] = tr
     return traces, None
@@ -995,12 +1043,13 @@ def histogram(cases, traces, actions, hist):
         for e0, e1 in zip(tr, tr[1:]):
             if len(e1['table']) < len(e0['table']):
                 hist['entries_removed'] += len(e0['table']) - len(e1['table'])
-            hist['dead_client_seen'] += any(p is not None and p[1] for p in e1['pool'])
+            hist['dead_client_seen'] += any(p is not None and p[1] == 2 for p in e1['pool'])
 
 
 def run(ctx):
     from collections import Counter
     ctx.regenerate('gen_eventing_consts', 'Eventing/Gen_Consts.v')
+    ctx.regenerate('gen_eventing_clauses', 'Eventing/Gen_Clauses.v')
     consts = ctx.impl('gen_eventing_consts', {})
     if consts.get('_crash') or 'actions' not in consts:
         # translator stopped (already recorded as broken): keep searching for a failing input with the constants
@@ -1103,6 +1152,13 @@ def run(ctx):
             ctx.sample({'stream': 'e2e', 'case': e2e[0], 'trace': [[x.get('step'), x.get('handed')] for x in traces[0]]})
         ctx.log(f'e2e: {len(e2e)} scenarios with real SdcConsumers, implementation done at {t_impl:.0f}s')
     ctx.cov['histogram'] = dict(sorted(hist.items()))
+    # injected delivery outcome -> exception class the transport client raised (sync SoapClient / SoapClientAsync)
+    ctx.cov['injected_outcome_to_exception'] = dict(sorted(RAISED.items()))
+    kinds = Counter()
+    for key, cnt in RAISED.items():
+        kinds[key.split('->')[0]] += cnt
+    ctx.log('injected delivery outcomes: ' + ', '.join(f'{k}={v}' for k, v in sorted(kinds.items())))
+    ctx.log('  raised by the transport clients: ' + ', '.join(f'{k}={v}' for k, v in sorted(RAISED.items()) if not k.endswith('->none')))
     if ctx.thorough:
         hits = ctx.gate_grep(['Eventing', 'Common'])
         if hits:
@@ -1111,8 +1167,12 @@ def run(ctx):
     return ctx.finish(
         rule='random op lists (Subscribe / Renew / GetStatus / Unsubscribe as real SOAP requests through the real HTTP '
              'handler, provider MDIB transactions of 7 report kinds, virtual-clock steps aimed at the expiry and at the '
-             'housekeeping grace period, housekeeping passes, injected HTTP errors / refused connections / time-outs per '
-             'subscriber endpoint, provider stop_all with and without SubscriptionEnd) on a real SdcProvider with the '
+             'housekeeping grace period, housekeeping passes, per subscriber endpoint an injected delivery outcome of every '
+             'kind the send paths distinguish (HTTP error status with empty body / with a SOAP fault, connection refused at '
+             'connect or broken while sending, connect time-out, socket / asyncio time-out, connection reset, 2xx answer '
+             'that is not XML; raised as the exception classes of the real sync SoapClient resp. of aiohttp inside the real '
+             'SoapClientAsync; the except clauses of the send paths are enumerated by gen_eventing_clauses.py and pinned '
+             'in Props/C08.v), provider stop_all with and without SubscriptionEnd) on a real SdcProvider with the '
              'sync and async managers and path / reference-parameter dispatch; after every op the response, the messages '
              'handed to subscriber-facing SOAP clients, the subscription table and the client pool are compared with the '
              'model (vm_compute) and judged by the oracle; distinct = distinct implementation traces.  fanout stream: '
@@ -1126,16 +1186,22 @@ def run(ctx):
              'shows that table operations wait for the fan-out, they are performed afterwards (model: deferred)',
         assumptions=['clock values and durations of the compared streams are multiples of 1/8 s',
                      'subscriber endpoints are distinguished by netloc; one outcome per endpoint and op',
-                     'async manager: SoapClientAsync (aiohttp) is replaced by a coroutine wrapper around the loop-back client',
+                     'async manager: the real SoapClientAsync runs, only its aiohttp.ClientSession is replaced by a fake '
+                     'session that performs the loop-back exchange when the post context is entered and raises '
+                     'aiohttp / asyncio exception instances for injected transport faults',
+                     'a delivery has failed iff the injected outcome is a failure of any kind or the transport client '
+                     'reported one - independent of what the implementation counted',
                      'fanout stream: the operations of other threads happen at one point of a delivery (after the hand-off '
                      'to the client, before the exchange) and each request is atomic (lookup and effect not split)'],
         trusted_base=['translator harness/impl/gen_eventing_consts.py (action URIs, MAX_NOTIFY_ERRORS, '
                       'DEFAULT_MAX_SUBSCR_DURATION, housekeeping grace, rounding digits)',
+                      'translator harness/impl/gen_eventing_clauses.py (except clauses of the six send-path functions)',
                       'correspondence harness harness/impl/c08_impl.py + harness/world.py (loop-back transport, virtual clock, '
                       'tap on post_message_to, reads _subscriptions / _soap_clients for the state views; fanout stream: '
                       'the receiver order is read from the result of _get_subscriptions_for_action, table-lock probe)',
                       'model evaluated inside Coq with vm_compute on generated case files'],
-        not_modelled=['real sockets, aiohttp client and its exception classes', 'event-loop timing / concurrency of the async gather',
+        not_modelled=['real sockets, the aiohttp connector (which exception aiohttp raises for which network event is taken from its documentation)',
+                      'event-loop timing / concurrency of the async gather', 'malformed HTTP framing, truncated bodies, TLS errors',
                       'set iteration order of the subscription table (atomic reports: messages of one op are compared as a '
                       'sorted list; fine-grained reports: the order is an input of the model, taken from the implementation)',
                       'provider shutdown from inside a fan-out; requests split between lookup and effect; two fan-outs of '
